@@ -67,7 +67,11 @@ func (t verifMTup) record(store string) *storage.TupleRecord {
 		ConditionName: verifMCond(t.c),
 	}
 	if t.c != 0 && t.x != 0 {
-		r.ConditionContext = verifMCtx(t.x)
+		if vt.ParamInt("ctx", 0) == 2 {
+			r.ConditionContext = verifMCtx(t.x) // x is concrete on every path of the ctx=2 job
+		} else {
+			r.ConditionContext = &structpb.Struct{}
+		}
 	}
 	return r
 }
@@ -77,7 +81,11 @@ func (t verifMTup) writeKey() *openfgav1.TupleKey {
 	if t.c != 0 {
 		tk.Condition = &openfgav1.RelationshipCondition{Name: verifMCond(t.c)}
 		if t.x != 0 {
-			tk.Condition.Context = verifMCtx(t.x)
+			if vt.ParamInt("ctx", 0) == 2 {
+				tk.Condition.Context = verifMCtx(t.x)
+			} else {
+				tk.Condition.Context = &structpb.Struct{}
+			}
 		}
 	}
 	return tk
